@@ -762,6 +762,161 @@ theorem orElse_spec (call ctor : Targets) :
     (call.overhead = none → (call.orElse ctor).overhead = ctor.overhead) := by
   refine ⟨?_, ?_, ?_, ?_, ?_, ?_⟩ <;> intro h <;> (try intro h') <;> simp_all [Targets.orElse]
 
+/-! ## ranking: `best` and `best(k=…)` return arg-mins of `best_scorer` -/
+
+/-- `a ≤ b` in the lexicographic order of `best_scorer` tuples -/
+def lexLe (a b : Int × Int × Int) : Prop := lexLt b a = false
+
+theorem lexLt_iff (a b : Int × Int × Int) :
+    lexLt a b = true ↔ (a.1 < b.1 ∨ (a.1 = b.1 ∧ (a.2.1 < b.2.1 ∨ (a.2.1 = b.2.1 ∧ a.2.2 < b.2.2)))) := by
+  unfold lexLt
+  simp only [Bool.or_eq_true, Bool.and_eq_true, decide_eq_true_eq, beq_iff_eq]
+
+theorem lexLe_iff (a b : Int × Int × Int) :
+    lexLe a b ↔ (a.1 < b.1 ∨ (a.1 = b.1 ∧ (a.2.1 < b.2.1 ∨ (a.2.1 = b.2.1 ∧ a.2.2 ≤ b.2.2)))) := by
+  unfold lexLe
+  rw [← Bool.not_eq_true, lexLt_iff]
+  omega
+
+theorem lexLe_trans {a b c : Int × Int × Int} (h1 : lexLe a b) (h2 : lexLe b c) : lexLe a c := by
+  rw [lexLe_iff] at *
+  omega
+
+theorem lexLe_of_lexLt {a b : Int × Int × Int} (h : lexLt a b = true) : lexLe a b := by
+  rw [lexLe_iff]; rw [lexLt_iff] at h; omega
+
+theorem lexLe_total (a b : Int × Int × Int) : lexLe a b ∨ lexLe b a := by
+  rw [lexLe_iff, lexLe_iff]; omega
+
+
+
+theorem lexLe_refl (a : Int × Int × Int) : lexLe a a := by
+  rw [lexLe_iff]; omega
+
+def SortedBy (f : Costs → Int × Int × Int) (l : List (List Ix × Costs)) : Prop :=
+  l.Pairwise (fun a b => lexLe (f a.2) (f b.2))
+
+theorem insertByScore_sorted (f : Costs → Int × Int × Int) (x : List Ix × Costs)
+    (l : List (List Ix × Costs)) (h : SortedBy f l) : SortedBy f (insertByScore f x l) := by
+  induction l with
+  | nil => simp [insertByScore, SortedBy]
+  | cons y t ih =>
+    unfold SortedBy at h
+    rw [List.pairwise_cons] at h
+    obtain ⟨hy, ht⟩ := h
+    unfold insertByScore
+    split
+    · rename_i hlt
+      unfold SortedBy
+      rw [List.pairwise_cons]
+      refine ⟨?_, ih ht⟩
+      intro z hz
+      rcases (mem_insertByScore f x z t).1 hz with rfl | hz
+      · exact lexLe_of_lexLt hlt
+      · exact hy z hz
+    · rename_i hnl
+      have hxy : lexLe (f x.2) (f y.2) := by
+        unfold lexLe
+        cases hc : lexLt (f y.2) (f x.2)
+        · rfl
+        · exact absurd hc hnl
+      unfold SortedBy
+      rw [List.pairwise_cons, List.pairwise_cons]
+      refine ⟨?_, hy, ht⟩
+      intro z hz
+      rcases List.mem_cons.1 hz with rfl | hz
+      · exact hxy
+      · exact lexLe_trans hxy (hy z hz)
+
+theorem sortByScore_sorted (f : Costs → Int × Int × Int) (l : List (List Ix × Costs)) :
+    SortedBy f (sortByScore f l) := by
+  unfold sortByScore
+  induction l with
+  | nil => simp [SortedBy]
+  | cons z t ih => simpa only [List.foldr_cons] using insertByScore_sorted f z _ ih
+
+/-- **bestK_sorted_argmin** — the list `best(k=…)` returns is sorted best first by `best_scorer`, and
+    its first entry is an arg-min over *all* valid cached slicings (so `best(k=1)` and `best()`
+    agree up to ties). -/
+theorem bestK_sorted_argmin (tg : Targets) (cache : Cache) (k : Nat) :
+    SortedBy (scorer tg) (bestK tg cache k) ∧
+    ∀ x rest, bestK tg cache k = x :: rest →
+      ∀ y ∈ cache, valid tg y.2 = true → lexLe (scorer tg x.2) (scorer tg y.2) := by
+  have hs := sortByScore_sorted (scorer tg) (cache.filter fun kv => valid tg kv.2)
+  constructor
+  · unfold bestK SortedBy
+    exact List.Pairwise.sublist (List.take_sublist _ _) hs
+  · intro x rest hx y hy hv
+    unfold bestK at hx
+    have hyS : y ∈ sortByScore (scorer tg) (cache.filter fun kv => valid tg kv.2) := by
+      rw [mem_sortByScore, List.mem_filter]; exact ⟨hy, hv⟩
+    -- x is the head of the sorted list
+    cases hS : sortByScore (scorer tg) (cache.filter fun kv => valid tg kv.2) with
+    | nil => rw [hS] at hyS; cases hyS
+    | cons s ss =>
+      rw [hS] at hx hyS hs
+      cases k with
+      | zero => simp at hx
+      | succ k =>
+        simp only [List.take_succ_cons, List.cons.injEq] at hx
+        obtain ⟨rfl, _⟩ := hx
+        unfold SortedBy at hs
+        rw [List.pairwise_cons] at hs
+        rcases List.mem_cons.1 hyS with rfl | hm
+        · exact lexLe_refl _
+        · exact hs.1 y hm
+
+/-- **best_is_argmin** — `best()` returns an arg-min of `best_scorer` over the valid cached slicings -/
+theorem best_is_argmin (tg : Targets) (cache : Cache) (x : List Ix × Costs)
+    (h : best tg cache = some x) :
+    ∀ y ∈ cache, valid tg y.2 = true → lexLe (scorer tg x.2) (scorer tg y.2) := by
+  intro y hy hv
+  unfold best at h
+  have hyF : y ∈ cache.filter (fun kv => valid tg kv.2) := by
+    rw [List.mem_filter]; exact ⟨hy, hv⟩
+  generalize cache.filter (fun kv => valid tg kv.2) = l at h hyF
+  cases l with
+  | nil => cases hyF
+  | cons b t =>
+    simp only [minBy, Option.some.injEq] at h
+    have key : ∀ (t : List (List Ix × Costs)) (b : List Ix × Costs),
+        lexLe (scorer tg (t.foldl (fun best y => if lexLt (scorer tg y.2) (scorer tg best.2) then y else best) b).2)
+              (scorer tg b.2) ∧
+        ∀ z ∈ t, lexLe (scorer tg (t.foldl (fun best y => if lexLt (scorer tg y.2) (scorer tg best.2) then y else best) b).2)
+              (scorer tg z.2) := by
+      intro t
+      induction t with
+      | nil => intro b; exact ⟨lexLe_refl _, fun _ hz => by cases hz⟩
+      | cons z t ih =>
+        intro b
+        simp only [List.foldl_cons]
+        by_cases hc : lexLt (scorer tg z.2) (scorer tg b.2) = true
+        · simp only [hc, if_true]
+          obtain ⟨h1, h2⟩ := ih z
+          refine ⟨lexLe_trans h1 (lexLe_of_lexLt hc), ?_⟩
+          intro w hw
+          rcases List.mem_cons.1 hw with rfl | hw
+          · exact h1
+          · exact h2 w hw
+        · simp only [hc]
+          obtain ⟨h1, h2⟩ := ih b
+          refine ⟨h1, ?_⟩
+          intro w hw
+          rcases List.mem_cons.1 hw with rfl | hw
+          · have : lexLe (scorer tg b.2) (scorer tg w.2) := by
+              unfold lexLe
+              cases hcc : lexLt (scorer tg w.2) (scorer tg b.2)
+              · rfl
+              · exact absurd hcc hc
+            exact lexLe_trans h1 this
+          · exact h2 w hw
+    subst h
+    obtain ⟨h1, h2⟩ := key t b
+    rcases List.mem_cons.1 hyF with rfl | hm
+    · exact h1
+    · exact h2 y hm
+
+
 /-! ## non-vacuity -/
 
 def exNet : Net :=
